@@ -266,7 +266,7 @@ CONTEXTS = [
     "{x} like 'a%'",
     "case when {x} = 1 then {y} else 0 end",
     "coalesce({x}, {y}) || 'z'",
-    "-{x} <> {y}",
+    "{x} <> {y} or {y} is null",
     "{x} = {y} = true",
 ]
 OPERANDS = ["v:a::int", "v:a::varchar", "v['k']::int", "v[0]::float", "get_path(v, 'a.b')::varchar", "f.value::varchar", "upper(v:a)"]
@@ -291,7 +291,7 @@ def _precedence(ci: int, xi: int, yi: int, where: bool) -> bool:
 @ob(
     "C11.extractions_are_parenthesised",
     encodes=["fakesnow.transforms.json_extract_precedence", "fakesnow.transforms.flatten_value_cast_as_varchar", "sqlglot DuckDB generator"],
-    bounds="12 operator contexts (comparison, AND/OR/NOT, arithmetic, IN, IS NULL, BETWEEN, LIKE, CASE, ||, unary minus, chained comparison) x 7 x 7 "
+    bounds="12 operator contexts (comparison, AND/OR/NOT, arithmetic, IN, IS NULL, BETWEEN, LIKE, CASE, ||, OR with IS NULL, chained comparison) x 7 x 7 "
     "extraction operands (casts of colon/bracket/GET_PATH paths, FLATTEN value, UPPER) in the select list or in WHERE: every -> / ->> in the SQL "
     "reaching the engine is wrapped in parentheses wherever a binary or unary operator could capture one of its operands (function arguments, CAST(..) "
     "operands and the subject of BETWEEN need none: validated on real DuckDB)",
